@@ -13,7 +13,7 @@ bash demo/run.sh $WT > $OUT/demo_without.log 2>&1; RC0=$?
 git apply demo/patch.diff || { echo "patch does not apply"; exit 2; }
 bash demo/run.sh $WT > $OUT/demo_with.log 2>&1; RC1=$?
 echo "demo: without change rc=$RC0, with change rc=$RC1"
-( cmake -G Ninja -S . -B _build -DCMAKE_BUILD_TYPE=RelWithDebInfo -DCPP_UTILITY_BUILD_TESTS=ON -DFETCHCONTENT_SOURCE_DIR_GOOGLETEST=/usr/src/googletest -DFETCHCONTENT_FULLY_DISCONNECTED=ON >/dev/null 2>&1 && cmake --build _build >/dev/null 2>&1 && ctest --test-dir _build -j8 --timeout 300 -E mcs 2>&1 | tail -3 ) > $OUT/tests_with.log 2>&1
+( cmake -G Ninja -S . -B _build -DCMAKE_BUILD_TYPE=RelWithDebInfo -DCPP_UTILITY_BUILD_TESTS=ON -DFETCHCONTENT_SOURCE_DIR_GOOGLETEST=/usr/src/googletest -DFETCHCONTENT_FULLY_DISCONNECTED=ON >/dev/null 2>&1 && cmake --build _build >/dev/null 2>&1 && ctest --test-dir _build -j8 --timeout 300 2>&1 | tail -3 ) > $OUT/tests_with.log 2>&1
 TESTS=$(grep -c "100% tests passed" $OUT/tests_with.log)
 echo "tests with change: $(tail -3 $OUT/tests_with.log | head -1)"
 rm -rf _build
@@ -35,6 +35,6 @@ python3 - <<PY
 import json
 json.dump({"seed": "$ID", "breaks_property": "$PROPS".split()[0] if "$PROPS" else None, "demo_rc_without_change": $RC0, "demo_rc_with_change": $RC1,
            "existing_tests_pass_with_change": bool($TESTS), "checks": "$RES".split(),
-           "what_i_ran": ["bash demo/run.sh <worktree> (with and without patch.diff)", "cmake/ctest -E mcs in the worktree with the change", "git -C /repo apply patch.diff; python3 /verif/vcheck.py --property <id> --tier quick; git -C /repo checkout -- ."],
+           "what_i_ran": ["bash demo/run.sh <worktree> (with and without patch.diff)", "cmake/ctest in the worktree with the change", "git -C /repo apply patch.diff; python3 /verif/vcheck.py --property <id> --tier quick; git -C /repo checkout -- ."],
            "needs_to_manifest": "see NOTES.md"}, open("$OUT/meta.json", "w"), indent=1)
 PY
